@@ -4,7 +4,29 @@
 (* ApplyCompilerOps, Reduce, ApplyInputs, Compile and Resolve each end in ok   *)
 (* or err.  There is no Panic, Abort or Timeout action.                        *)
 (***************************************************************************)
+EXTENDS FiniteSets, Naturals
+
 StageNames == {"front", "apply_args", "apply_fees", "compiler_ops", "reduce", "apply_inputs", "apply+reduce",
                "constant", "compile", "resolve_tx"}
 StageOutcomes == {"ok", "err"}
+
+(* Chain-specific directives of a transaction IR: a name and a field map.  The IR a client    *)
+(* sends is decodable whatever the name and whichever fields are present, so for the back end *)
+(* a directive is: each field of its schema holding a value of the expected shape, or being   *)
+(* absent, or holding a value of another shape.  Every such directive must end in ok or err.  *)
+DirectiveFields == [withdrawal |-> {"credential", "amount", "redeemer"},
+                    plutus_witness |-> {"version", "script"},
+                    native_witness |-> {"script"},
+                    cardano_publish |-> {"to", "amount", "datum", "version", "script"},
+                    treasury_donation |-> {"coin"},
+                    vote_delegation_certificate |-> {"drep", "stake"}]
+DirectiveNames == DOMAIN DirectiveFields
+FieldShapes == {"good", "missing", "none", "number", "negative", "bytes3", "bytes28", "list", "bool", "address", "param"}
+(* a directive instance: the shape of every field of the schema, and whether an unknown field is added *)
+DirectiveInstances(maxDeviations) ==
+    UNION {{[name |-> d, shapes |-> sh, extra |-> x] :
+               x \in BOOLEAN,
+               sh \in {f \in [DirectiveFields[d] -> FieldShapes] :
+                         Cardinality({k \in DirectiveFields[d] : f[k] # "good"}) <= maxDeviations}} :
+           d \in DirectiveNames}
 =============================================================================
